@@ -389,7 +389,7 @@ func RuleListen(r *Report, p *Program) {
 					continue
 				}
 				n7++
-				a, b := storageIDs(evs[0].Args[len(evs[0].Args)-1]), storageIDs(evs[1].Args[len(evs[1].Args)-1])
+				a, b := storageIDs(evs[0].Snap[len(evs[0].Snap)-1]), storageIDs(evs[1].Snap[len(evs[1].Snap)-1])
 				for id := range a {
 					if b[id] {
 						bad7 = "two consecutive events are delivered with shared storage (" + id + "): a status already handed to the callback changes when the next event is decoded"
